@@ -15,6 +15,7 @@ import (
 	"errors"
 	"fmt"
 	"regexp"
+	"runtime/debug"
 	"sort"
 	"strings"
 	"testing"
@@ -80,9 +81,18 @@ var batchAlpha = []hx.Op{
 
 const coreN = 12
 
-// dbCfg is hx's base configuration with a 32 KiB memtable (a fresh DB is opened per case; zeroing a
-// 256 KiB arena per Open dominated the run time). Batches stay far below the large-batch threshold.
+// dbCfg is hx's base configuration made cheap to open (a fresh DB is opened per case): 32 KiB
+// memtable (zeroing a 256 KiB arena per Open dominated the run time; batches stay far below the
+// large-batch threshold) and one block cache shared by all DBs of the process.
 var dbCfg = hx.Config{Name: "memtable32k", MemTableSize: 32 << 10}
+
+var sharedCache = pebble.NewCache(16 << 20)
+
+func openDB() (*hx.X, error) {
+	o := dbCfg.Options(vfs.NewMem())
+	o.Cache = sharedCache
+	return hx.OpenWith("db", o)
+}
 
 type dbState struct {
 	Name string
@@ -141,7 +151,15 @@ func posString(ps []pos) string {
 	return "<" + strings.Join(s, " | ") + ">"
 }
 
-func spanString(s hx.Span) string { return hx.SpansString([]hx.Span{s}) }
+func spanString(s hx.Span) string {
+	var b strings.Builder
+	b.WriteString("[" + s.Start + "," + s.End + "){")
+	for _, k := range s.Keys {
+		b.WriteString(k.K + "=" + k.V + ",")
+	}
+	b.WriteString("}")
+	return b.String()
+}
 
 // view is what an iterator with the given key types must show for a model.
 type view struct {
@@ -464,7 +482,7 @@ func runCase(c *vlib.Ctx, st *dbState, seq []hx.Op, verbose bool) (f *failure, s
 		r.views[j+1] = m.Clone()
 	}
 
-	x, err := hx.Open(vfs.NewMem(), "db", dbCfg)
+	x, err := openDB()
 	if err != nil {
 		return &failure{class: "open-error", desc: err.Error()}, false, r
 	}
@@ -597,8 +615,10 @@ func runCase(c *vlib.Ctx, st *dbState, seq []hx.Op, verbose bool) (f *failure, s
 		if f := r.freshReads(b, t, false); f != nil {
 			return at(f, "commit", t), false, r
 		}
-		if f := r.dbUnchanged(); f != nil {
-			return at(f, "commit", t), false, r
+		if t == d { // phase 1 checked it after every op; here once more right before Commit
+			if f := r.dbUnchanged(); f != nil {
+				return at(f, "commit", t), false, r
+			}
 		}
 		if f := r.refreshBySetOptions(rP, "Rp(points only)", t, &optsP, false); f != nil {
 			return at(f, "commit", t), false, r
@@ -733,13 +753,13 @@ var reVal = regexp.MustCompile(`v\d+`)
 
 // prepare replays a state's history on a real DB and on the model and computes its signatures.
 func prepare(st *dbState) error {
-	x, err := hx.Open(vfs.NewMem(), "db", dbCfg)
+	x, err := openDB()
 	if err != nil {
 		return err
 	}
 	defer x.D.Close()
 	m := hx.NewModel(bounds...)
-	var mem []string
+	var memOps []hx.Op // memtable contents, in normal form under commuting neighbours
 	for i, op := range st.Hist {
 		if !m.Legal(op) {
 			return fmt.Errorf("state %s leaves the SingleDelete contract", st.Name)
@@ -750,11 +770,22 @@ func prepare(st *dbState) error {
 		m.Apply(op, fmt.Sprintf("v%d", i))
 		switch op.K {
 		case "flush":
-			mem = nil
+			memOps = nil
 		case "compact":
 		default:
-			mem = append(mem, op.String())
+			memOps = append(memOps, op)
+			for j := len(memOps) - 1; j > 0; j-- {
+				if commute(memOps[j-1], memOps[j]) && memOps[j-1].String() > memOps[j].String() {
+					memOps[j-1], memOps[j] = memOps[j], memOps[j-1]
+				} else {
+					break
+				}
+			}
 		}
+	}
+	mem := make([]string, len(memOps))
+	for i, op := range memOps {
+		mem[i] = op.String()
 	}
 	if d := hx.CompareLatest(x.D, m, universe, true); d != "" {
 		return fmt.Errorf("state %s: %s", st.Name, d)
@@ -773,26 +804,40 @@ func prepare(st *dbState) error {
 	return nil
 }
 
-// buildStates returns the state menu: histories of depth <= 2 over dbAlpha deduplicated by the fine
-// signature (thorough) or by the coarse signature keeping the LAST, i.e. internally richest, member
-// of each class (quick), followed by the hand-built shapes.
-func buildStates(thorough bool) ([]*dbState, int, error) {
+// commute reports whether two adjacent history ops leave the same DB (contents and visible state)
+// in either order: points on different keys, and range keys against points / range deletions.
+func commute(x, y hx.Op) bool {
+	if x.K == "flush" || y.K == "flush" {
+		return false
+	}
+	rk := func(o hx.Op) bool { return o.K == "rkset" || o.K == "rkunset" || o.K == "rkdel" }
+	if rk(x) != rk(y) {
+		return true
+	}
+	if rk(x) || x.K == "delrange" || y.K == "delrange" {
+		return false
+	}
+	return x.Key != y.Key
+}
+
+// buildStates returns the two state menus built from the histories of depth <= 2 over dbAlpha:
+// fine = deduplicated by (visible state, SingleDelete class, LSM shape, memtable contents up to
+// commuting operations); coarse = deduplicated C01-style by (visible state, LSM shape), each class
+// represented by its member with the most internal keys (the earliest of those). The hand-built
+// shapes are appended to both.
+func buildStates() (fine, coarse []*dbState, total int, err error) {
 	k := len(dbAlpha)
 	n := vlib.SeqCount(k, 1, 2)
-	var all []*dbState
-	all = append(all, &dbState{Name: "empty"})
+	all := []*dbState{{Name: "empty"}}
 	for i := 0; i < n; i++ {
-		seq := vlib.SeqDecode(i, k, 1, 2)
 		st := &dbState{}
-		for _, s := range seq {
+		for _, s := range vlib.SeqDecode(i, k, 1, 2) {
 			st.Hist = append(st.Hist, dbAlpha[s])
 		}
 		st.Name = "hist:" + hx.HistString(st.Hist)
 		all = append(all, st)
 	}
-	total := len(all)
-	var out []*dbState
-	seen := map[string]int{}
+	total = len(all)
 	weight := func(st *dbState) int {
 		n := 0
 		for _, op := range st.Hist {
@@ -802,35 +847,42 @@ func buildStates(thorough bool) ([]*dbState, int, error) {
 		}
 		return n
 	}
+	dedupe := func(sig func(*dbState) string) []*dbState {
+		var out []*dbState
+		seen := map[string]int{}
+		for _, st0 := range all {
+			st := *st0
+			st.members = 1
+			if j, ok := seen[sig(&st)]; ok {
+				if weight(&st) > weight(out[j]) {
+					st.members = out[j].members
+					out[j] = &st
+				}
+				out[j].members++
+				continue
+			}
+			seen[sig(&st)] = len(out)
+			out = append(out, &st)
+		}
+		return out
+	}
 	for _, st := range all {
 		if err := prepare(st); err != nil {
-			return nil, 0, err
+			return nil, nil, 0, err
 		}
-		sig := st.sig
-		if !thorough {
-			sig = st.csig
-		}
-		if j, ok := seen[sig]; ok {
-			// representative of a class: the member with the most internal keys, the earliest of those
-			if weight(st) > weight(out[j]) {
-				st.members = out[j].members
-				out[j] = st
-			}
-			out[j].members++
-			continue
-		}
-		seen[sig] = len(out)
-		st.members = 1
-		out = append(out, st)
 	}
+	fine = dedupe(func(st *dbState) string { return st.sig })
+	coarse = dedupe(func(st *dbState) string { return st.csig })
 	for i := range handShapes {
 		st := &handShapes[i]
 		if err := prepare(st); err != nil {
-			return nil, 0, err
+			return nil, nil, 0, err
 		}
-		out = append(out, st)
+		st.members = 1
+		fine = append(fine, st)
+		coarse = append(coarse, st)
 	}
-	return out, total, nil
+	return fine, coarse, total, nil
 }
 
 // ---------------------------------------------------------------------------------------------
@@ -844,11 +896,13 @@ func findState(states []*dbState, cs Case) *dbState {
 }
 
 type plan struct {
-	alpha []hx.Op
-	depth int
+	states     []*dbState
+	alpha      []hx.Op
+	minD, maxD int // sequence lengths; shorter sequences of a deeper plan are covered by an earlier one
 }
 
 func TestCheck(t *testing.T) {
+	debug.SetGCPercent(400)
 	vlib.Main(t, "C05", func(c *vlib.Ctx) {
 		if c.ReplayPath() != "" {
 			var cs Case
@@ -865,42 +919,50 @@ func TestCheck(t *testing.T) {
 			c.Eval(1)
 			return
 		}
-		states, total, err := buildStates(c.Thorough())
+		fine, coarse, total, err := buildStates()
 		if err != nil {
 			c.Incomplete("cannot build the DB states: " + err.Error())
 			return
 		}
-		var names []string
-		for _, s := range states {
-			names = append(names, fmt.Sprintf("%s (x%d)", s.Name, s.members))
+		stateNames := func(states []*dbState) []string {
+			var names []string
+			for _, s := range states {
+				names = append(names, fmt.Sprintf("%s (x%d)", s.Name, s.members))
+			}
+			return names
 		}
-		c.Note("db_states", names)
+		c.Note("db_states_coarse", stateNames(coarse))
 		var plans []plan
 		if !c.Thorough() {
-			plans = []plan{{batchAlpha, 3}}
+			plans = []plan{
+				{states: coarse, alpha: batchAlpha, minD: 0, maxD: 2},
+				{states: coarse, alpha: batchAlpha[:coreN], minD: 3, maxD: 3},
+			}
 		} else {
-			plans = []plan{{batchAlpha, 3}, {batchAlpha[:coreN], 4}}
+			c.Note("db_states_fine", stateNames(fine))
+			plans = []plan{
+				{states: fine, alpha: batchAlpha, minD: 0, maxD: 3},
+				{states: coarse, alpha: batchAlpha[:coreN], minD: 4, maxD: 4},
+			}
 		}
 		var notes []string
-		first := true
 		for _, p := range plans {
+			p := p
 			k := len(p.alpha)
-			minD := 1
-			if !first {
-				minD = p.depth // shorter sequences were covered by the previous plan's superset alphabet
-			}
-			nSeq := vlib.SeqCount(k, minD, p.depth)
+			minD := p.minD
 			extra := 0
-			if first {
-				extra = 1 // the empty batch
+			if minD == 0 {
+				extra, minD = 1, 1 // the empty batch
 			}
+			nSeq := vlib.SeqCount(k, minD, p.maxD)
+			states := p.states
 			nS := len(states)
 			n := (nSeq + extra) * nS
 			done, complete := c.Each(n, func(i int) {
 				si, st := i/nS, states[i%nS]
 				var seq []hx.Op
 				if si >= extra {
-					for _, s := range vlib.SeqDecode(si-extra, k, minD, p.depth) {
+					for _, s := range vlib.SeqDecode(si-extra, k, minD, p.maxD) {
 						seq = append(seq, p.alpha[s])
 					}
 				}
@@ -943,16 +1005,14 @@ func TestCheck(t *testing.T) {
 					}
 				}
 			})
-			notes = append(notes, fmt.Sprintf("%d DB states x batch alphabet %d, sequences of length %d..%d%s: %d/%d cases",
-				nS, k, minD, p.depth, map[bool]string{true: " and the empty batch", false: ""}[first], done, n))
+			notes = append(notes, fmt.Sprintf("%d DB states x batch alphabet %d, sequences of length %d..%d: %d/%d cases", nS, k, p.minD, p.maxD, done, n))
 			if !complete {
-				c.Incomplete(fmt.Sprintf("budget expired after %d of %d cases of plan (alphabet %d, depth %d); earlier plans complete; cases are ordered by sequence (shortest first), all DB states per sequence", done, n, k, p.depth))
+				c.Incomplete(fmt.Sprintf("budget expired after %d of %d cases of plan (%d states, alphabet %d, lengths %d..%d); earlier plans complete; cases are ordered by sequence (shortest first), all DB states per sequence", done, n, nS, k, p.minD, p.maxD))
 				break
 			}
-			first = false
 		}
 		c.Note("plans", notes)
-		c.Note("scope", fmt.Sprintf("%d DB states (of %d histories of depth <=2 over %d symbols after deduplication, + %d hand-built shapes); every case runs the sequence on an indexed batch that is discarded and on a second one that is committed, with all checks after every batch op", len(states), total, len(dbAlpha), len(handShapes)))
+		c.Note("scope", fmt.Sprintf("DB states: the %d histories of depth <=2 over %d symbols deduplicated to %d (coarse: visible state + LSM shape) / %d (fine: + SingleDelete class + memtable contents), + %d hand-built shapes; every case runs its batch sequence on an indexed batch that is discarded and then on a second (recycled) indexed batch that is committed, with all checks after every batch op", total, len(dbAlpha), len(coarse)-len(handShapes), len(fine)-len(handShapes), len(handShapes)))
 	})
 }
 
